@@ -15,6 +15,9 @@ Python ↔ model
                                                       0.0 == -0.0, 1 == True == 1.0, NaN != NaN)
   `v is w`                                            record equality `v = w`
   PyObject_RichCompareBool inside tuple/dict compare  `tupleEq v w  :=  v = w ∨ pyEq v.data w.data`
+  `str(value)` (third component of the constant key   `strRep v.data`: the exact content as text — str is injective
+  since /repo ab6dc38)                                on the non-NaN values of one type, the sign of zero is
+                                                      printed, every NaN prints as 'nan' (sign/payload erased)
   Expr.key / Expr._compute_serialized (expr.py)       `Key`, `keyOf`
   Expr._two_level_intkey                              `tlkOf`, `tlkAt`
   Expr.intkey / _set_serialized_id                    `Stored.id`
@@ -135,6 +138,27 @@ inductive Canon where
 def canon (v : PyVal) : Canon :=
   if v.data.den = .nan then .obj v else .val v.data.den
 
+/-- Canonical form of a float datum that keeps the sign of zero: `(m, e)` with `m` odd, zero as
+`fin neg 0 0`. -/
+def PyFloat.canonForm : PyFloat → PyFloat
+  | .fin neg m e =>
+      if m = 0 then .fin neg 0 0
+      else let r := stripTwos (m.log2 + 1) m e; .fin neg r.1 r.2
+  | f => f
+
+/-- What `str` shows of a float: the exact value with the sign of zero; 'nan' for every NaN. -/
+def PyFloat.strRep : PyFloat → PyFloat
+  | .nan _ _ => .nan false 0
+  | f => f.canonForm
+
+/-- `str(value)` as the textual identity of the content (within one type `str` is injective on
+non-NaN values: repr round-trips; '0.0' vs '-0.0', '-0j' vs '0j'; NaNs print as 'nan'). -/
+def PyData.strRep : PyData → PyData
+  | .int z => .int z
+  | .flt f => .flt f.strRep
+  | .cplx re im => .cplx re.strRep im.strRep
+  | .str s => .str s
+
 /-! ### Keys, candidates, registry -/
 
 abbrev Id := Nat
@@ -144,14 +168,14 @@ abbrev TLK := String × List Id
 
 /-- `Expr.key` (`__serialized`).
 * `("symbol", name, Type)`
-* `("z_constant", (value, type(value).__name__), like.key)` — the pair `(value, tname)` is kept as
-  the `tupleEq`-class `canon value` together with `tname`
+* `("z_constant", (value, type(value).__name__, str(value)), like.key)` — the triple is kept as the
+  `tupleEq`-class `canon value`, `tname` and `strRep` of the content
 * `(kind, operand._two_level_intkey, …)`.
 Tuples of the three shapes are never equal to each other for the kinds the Context API produces
 (kinds other than "symbol"/"constant"/"z_constant"); see notes/C07.md. -/
 inductive Key where
   | sym (name : String) (ty : Ty)
-  | const (c : Canon) (tname : String) (like : Key)
+  | const (c : Canon) (tname : String) (str : PyData) (like : Key)
   | op (kind : String) (args : List TLK)
   deriving DecidableEq
 
@@ -205,7 +229,7 @@ def candAt (s : State) (i : Id) : Option Cand :=
 /-- `Expr._compute_serialized`. -/
 def keyOf (s : State) : Cand → Key
   | .sym n t => .sym n t
-  | .const v l => .const (canon v) v.tname (keyAt s l)
+  | .const v l => .const (canon v) v.tname v.data.strRep (keyAt s l)
   | .op k args => .op k (args.map (tlkAt s))
 
 /-- Well-formed candidate over operands with intkeys `< n`: the generic branch of `Expr.__new__`
@@ -262,20 +286,21 @@ def run (s : State) : List Cand → State × List Out
 /-! ### Structural identity -/
 
 /-- What the CODE identifies: kind, operand ids in order; constants by the `tupleEq` class of the
-value, the type name and the (normalised) like operand. -/
+value, the type name, `str` of the value and the (normalised) like operand. -/
 inductive Skel where
   | sym (name : String) (ty : Ty)
-  | const (c : Canon) (tname : String) (like : Id)
+  | const (c : Canon) (tname : String) (str : PyData) (like : Id)
   | op (kind : String) (args : List Id)
   deriving DecidableEq
 
 def skel : Cand → Skel
   | .sym n t => .sym n t
-  | .const v l => .const (canon v) v.tname l
+  | .const v l => .const (canon v) v.tname v.data.strRep l
   | .op k args => .op k args
 
 /-- Structural identity as the code sees it (value equality = Python `==` class with the
-identity shortcut, plus the type name). -/
+identity shortcut, plus the type name, plus `str` of the value — i.e. exact content with the sign
+of zero, NaN objects told apart by identity). -/
 def CodeStructEq (c c' : Cand) : Prop := skel c = skel c'
 
 instance (c c' : Cand) : Decidable (CodeStructEq c c') := inferInstanceAs (Decidable (skel c = skel c'))
@@ -303,28 +328,11 @@ structure Inv (s : State) : Prop where
   /-- the table is exactly the map key ↦ id of the registered expressions (hence injective) -/
   table : ∀ (k : Key) (i : Nat), s.table.lookup k = some i ↔ ∃ st : Stored, s.exprs[i]? = some st ∧ st.key = k
 
-/-! ### Value well-formedness used by the `_plain` theorem -/
+/-! ### NaN-free values, used by the `_plain` theorem -/
 
-inductive Shape where
-  | int | flt | cplx | str
-  deriving DecidableEq, Repr
-
-def PyData.shape : PyData → Shape
-  | .int _ => .int | .flt _ => .flt | .cplx _ _ => .cplx | .str _ => .str
-
-/-- Representation class determined by `type(v).__name__` for the value types the package admits
-(`utils.value_types` + str). -/
-def shapeOfName (t : String) : Option Shape :=
-  if t ∈ ["bool", "int", "int8", "int16", "int32", "int64", "uint8", "uint16", "uint32", "uint64",
-          "longlong", "ulonglong"] then some .int
-  else if t ∈ ["float", "float16", "float32", "float64", "longdouble"] then some .flt
-  else if t ∈ ["complex", "complex64", "complex128", "clongdouble"] then some .cplx
-  else if t = "str" then some .str
-  else none
-
-/-- A float datum with no NaN, no negative zero, in canonical form. -/
+/-- A float datum in canonical form with no NaN (negative zero allowed: `fin true 0 0`). -/
 def PyFloat.plain : PyFloat → Prop
-  | .fin neg m e => normDy neg m e = .dy neg m e
+  | .fin neg m e => PyFloat.canonForm (.fin neg m e) = .fin neg m e
   | .inf _ => True
   | .nan _ _ => False
 
@@ -334,9 +342,8 @@ def PyData.plain : PyData → Prop
   | .cplx re im => re.plain ∧ im.plain
   | .str _ => True
 
-/-- A value whose representation matches its type name and which has no NaN component and no
-negative zero. -/
-def PyVal.Plain (v : PyVal) : Prop := shapeOfName v.tname = some v.data.shape ∧ v.data.plain
+/-- A value with no NaN component (content in canonical form). -/
+def PyVal.Plain (v : PyVal) : Prop := v.data.plain
 
 def Cand.Plain : Cand → Prop
   | .const v _ => v.Plain
